@@ -189,7 +189,7 @@ func runCheck(o *checkOpts) int {
 		if !contractMentions(fc, o.prop) {
 			continue
 		}
-		if fc.External {
+		if fc.External && !fc.verifiedDep() {
 			continue
 		}
 		fn := P.lookupFunc(fc.Pkg, fc.Key)
